@@ -112,7 +112,10 @@ def monotoneOk (pairs : List (Expected × Metric)) (producers : Nat) : Bool :=
     | t :: ts => monotoneFrom t ts
 
 /-- the bucket-id tag value of an emitted metric -/
-def idOf (o : Obs) (m : Metric) : Option Bytes := ((pairsOfTags m.tags).find? fun kv => kv.1 == o.bucketIdName).map (·.2)
+def idOf (o : Obs) (m : Metric) : Option Bytes :=
+  -- the reporter appends the bucket tags AFTER the histogram's own tags: when an own tag carries the same name, the
+  -- bucket id is the last tag of that name
+  ((pairsOfTags m.tags).filter fun kv => kv.1 == o.bucketIdName).getLast?.map (·.2)
 
 def bytesLt : Bytes → Bytes → Bool
   | [], [] => false
